@@ -191,10 +191,13 @@ class RDMol2StereoMolGraph:
             elif chiral_tag == Chem.ChiralType.CHI_TRIGONALBIPYRAMIDAL:
                 perm = atom.GetUnsignedProp("_chiralPermutation")
                 tbp_order = self._tbp_atom_order_permutation_dict[perm]
-                neigh_atoms = tuple([neighbors[i] for i in tbp_order])
+                # neighbors in the order of @TB1: (axis start, three equatorial
+                # atoms, axis end); the descriptor lists both axial atoms first
+                tb1_atoms = [neighbors[i] for i in tbp_order]
+                neigh_atoms = tuple([tb1_atoms[i] for i in (0, 4, 1, 2, 3)])
                 tbp_atoms = (id_atom_map[atom_idx], *neigh_atoms)
                 assert len(tbp_atoms) == 6
-                atom_stereo = TrigonalBipyramidal(tbp_atoms, 1)
+                atom_stereo = TrigonalBipyramidal(tbp_atoms, -1)
 
             elif chiral_tag == Chem.ChiralType.CHI_OCTAHEDRAL:
                 perm = atom.GetUnsignedProp("_chiralPermutation")
